@@ -5,4 +5,5 @@ export GOFLAGS=-mod=mod GOPROXY=off GOSUMDB=off GOTOOLCHAIN=local
 cd "$(dirname "$0")"
 mkdir -p bin .cache evidence replays
 (cd engine/ssa2json && go build -o ../../bin/ssa2json .)
+(cd tools/unitab && go run . > ../../.cache/unitab.json)
 python3-vt -c "import sys; sys.path.insert(0,'engine/gosym'); import engine; engine.load_program(); print('ssa dump ok')"
